@@ -99,8 +99,8 @@ def run_translated(prop: str, name: str, columns: list[np.ndarray], n: int | Non
     return run_driver(lines)
 
 
-def compare(ctx: Ctx, prop: str, name: str, columns, real_outputs, rtol=1e-12, atol=0.0, kinds=None, transform=None, n=None,
-            periods=None, bool_margin=None, where=None):
+def _compare_impl(ctx: Ctx, prop: str, name: str, columns, real_outputs, rtol=1e-12, atol=0.0, kinds=None, transform=None, n=None,
+                  periods=None, bool_margin=None, where=None):
     """real_outputs: list of arrays (one per output of the translated function, in order; None = not compared).  Reports a
     disagreement (`<prop>.src.<name>`) when the translated source at Float and the real function differ beyond rtol/atol;
     counts the bit-identical fraction into the evidence.  kinds[j] in {None/'α', 'Bool', 'Nat'}.
@@ -171,7 +171,7 @@ def compare(ctx: Ctx, prop: str, name: str, columns, real_outputs, rtol=1e-12, a
         e["differ_but_both_below_atol"] = e.get("differ_but_both_below_atol", 0) + near0
 
 
-def compare_split(ctx: Ctx, prop: str, name: str, columns, reducers, real_returns, real_terms=None, rtol=1e-12, atol=0.0):
+def _compare_split_impl(ctx: Ctx, prop: str, name: str, columns, reducers, real_returns, real_terms=None, rtol=1e-12, atol=0.0):
     """A translated function whose reductions were split (pytrans `reductions`): its inputs are `columns` (per-event arrays
     and 0-d values, in parameter order) followed by one reduced value per reducer; its outputs are one term per reducer
     followed by the returned values.
@@ -232,3 +232,23 @@ def compare_split(ctx: Ctx, prop: str, name: str, columns, reducers, real_return
     e["worst_ulps"] = max(e["worst_ulps"], worst)
     return terms, [h2f(t) for t in toks[nr:]]
 
+
+
+def _robust(impl):
+    """The translated definition is regenerated from the working tree: when the source changed, its inputs / outputs may no
+    longer fit what the check hands it (other arity, other kinds).  That is a broken tie of this function — reported as a
+    disagreement, followed by the failing-input search — not an infrastructure error of the check."""
+    def wrapper(ctx, prop, name, *a, **kw):
+        from common import InfraError
+        try:
+            return impl(ctx, prop, name, *a, **kw)
+        except InfraError:
+            raise
+        except Exception as ex:  # noqa
+            ctx.disagree(f"{prop}.src.{name}", {"error": f"the translated function no longer fits the comparison: {type(ex).__name__}: {str(ex)[:200]}"})
+    wrapper.__doc__ = impl.__doc__
+    return wrapper
+
+
+compare = _robust(_compare_impl)
+compare_split = _robust(_compare_split_impl)
